@@ -30,6 +30,8 @@ Ctx(call, row) == 10 * call + row
 IntA(c, nA) == c % nA
 IntP(c) == Probs[(c % 3) + 1]
 IntW(c, nA) == Rot(Base(nA), c % nA)
+(* a learner may also write a PMF that puts all mass on one action, with integer entries 1 and 0 *)
+OneHot(c, nA) == [j \in 1..nA |-> IF j - 1 = c % nA THEN 4 ELSE 0]
 
 Formats == {"AX", "AP", "PM", "AX*", "AP*", "PM*"}
 Layouts == {"none", "row", "col", "notbatch"}
@@ -45,7 +47,7 @@ Expected(c, call, row, s) ==      \* sequence of [call,row,a,p,k] from (call,row
   LET x == Ctx(call, row)
       nxt(s2) == IF row < Rows(c) THEN Expected(c, call, row + 1, s2) ELSE Expected(c, call + 1, 1, s2)
   IN IF IsPM(c)
-     THEN LET w == IntW(x, c.nA)  idx == ChoiceW(s, w)
+     THEN LET w == IF c.oh THEN OneHot(x, c.nA) ELSE IntW(x, c.nA)  idx == ChoiceW(s, w)
           IN <<[call |-> call, row |-> row, a |-> idx, p |-> w[idx + 1] * 250, k |-> IF c.kw THEN x ELSE NoVal]>> \o nxt(Step(s))
      ELSE <<[call |-> call, row |-> row, a |-> IntA(x, c.nA), p |-> IF c.fmt \in {"AP","AP*"} THEN IntP(x) ELSE NoVal,
              k |-> IF c.kw THEN x ELSE NoVal]>> \o nxt(s)
@@ -55,9 +57,10 @@ pfNAs == 1..3
 pfBSizes == 1..3
 pfSeeds == {1, 7, 482549499}      \* 482549499: the first uniform is exactly 0
 PInit == /\ go = FALSE /\ inst = [i \in Inst |-> [s |-> 0, g |-> FALSE, live |-> FALSE]]
-         /\ \E f \in Formats : \E kw \in BOOLEAN : \E lay \in Layouts : \E nA \in NAs : \E b \in BSizes : \E sd \in Seeds :
+         /\ \E f \in Formats : \E kw \in BOOLEAN : \E lay \in Layouts : \E nA \in NAs : \E b \in BSizes : \E sd \in Seeds : \E oh \in BOOLEAN :
               /\ (lay = "none" => b = 1)
-              /\ case = [fmt |-> f, kw |-> kw, layout |-> lay, nA |-> nA, bsize |-> b, seed |-> sd]
+              /\ (oh => f \in {"PM", "PM*"})
+              /\ case = [fmt |-> f, kw |-> kw, layout |-> lay, nA |-> nA, bsize |-> b, seed |-> sd, oh |-> oh]
 PNext == ~go /\ go' = TRUE /\ UNCHANGED <<case, inst>>
 PSpec == PInit /\ [][PNext]_pvars
 Emit == go => PrintT(ToJson([case |-> case, expected |-> Expected(case, 1, 1, case.seed % Mod)]))
